@@ -386,7 +386,7 @@ fn writer_covers(o: &WRun) {
 
 // ===== harnesses (one Kani proof per line of the table in the file header) =====
 
-// @check props=C19 tier=quick
+// @check props=C19 tier=thorough
 // @desc Reader, KEEP_ALL, BY_RECEPTION_TIMESTAMP, exactly 1 stored sample(s): after one real add_reader_change the cache is within max_samples / max_instances / max_samples_per_instance; Rejected(instance, reason) carries the instance of the change and a reason whose limit is reached, and then the sample list is untouched; a change whose storing would exceed a limit is Rejected (never stored, never silently dropped); all three rejection reasons are witnessed.
 // @bounds exactly 1 stored sample(s), KEEP_ALL, BY_RECEPTION_TIMESTAMP, 2 instance handles (both registered), 2 writers, each resource limit in {1,2,3,unlimited} (QoS consistent), all 5 change kinds, source timestamps None or sec 0..4 x nanosec {0, 5*10^8}, symbolic sample/view/instance states, generation counts 0..2, instance_ownership empty; unwind 6
 // @assume pre-state satisfies the representation invariant R1-R3, the KEEP_LAST invariant and the resource-limit invariant (all re-asserted after the step)
@@ -403,7 +403,7 @@ fn c19_reader_limits_keep_all_n1() {
     reader_covers(&o);
 }
 
-// @check props=C19 tier=thorough
+// @check props=C19 tier=quick
 // @desc Reader, KEEP_ALL, BY_RECEPTION_TIMESTAMP, exactly 2 stored sample(s): after one real add_reader_change the cache is within max_samples / max_instances / max_samples_per_instance; Rejected(instance, reason) carries the instance of the change and a reason whose limit is reached, and then the sample list is untouched; a change whose storing would exceed a limit is Rejected (never stored, never silently dropped); all three rejection reasons are witnessed.
 // @bounds exactly 2 stored sample(s), KEEP_ALL, BY_RECEPTION_TIMESTAMP, 2 instance handles (both registered), 2 writers, each resource limit in {1,2,3,unlimited} (QoS consistent), all 5 change kinds, source timestamps None or sec 0..4 x nanosec {0, 5*10^8}, symbolic sample/view/instance states, generation counts 0..2, instance_ownership empty; unwind 6
 // @assume pre-state satisfies the representation invariant R1-R3, the KEEP_LAST invariant and the resource-limit invariant (all re-asserted after the step)
